@@ -58,9 +58,11 @@ Inductive prim :=
 | PSeqMul     (* a * b where an operand may be a sequence: numbers multiply; a string / a list and an integer n (in
                  either order) is n copies of it, none when n <= 0 *)
 | PSeqLen     (* len(a), a a list or a string (the number of its characters) *)
-| PSortedByAttr. (* l.sort(key=lambda v: v.a) / sorted(l, key=...) [l; 'a'], l a list of objects whose attribute a is a
+| PSortedByAttr  (* l.sort(key=lambda v: v.a) / sorted(l, key=...) [l; 'a'], l a list of objects whose attribute a is a
                     number: the STABLE sort by that number (list.sort is stable; on numbers the stable sorted
                     permutation is unique) *)
+| PSliceFrom.    (* a[n:], a a list: the elements from index n on (a negative n counts from the end, an n beyond
+                    either end is clamped, as Python does); a[:n] ++ a[n:] = a for every integer n *)
 Definition as_int (q : Q) : option Z :=
   let r := Qred q in match Qden r with xH => Some (Qnum r) | _ => None end.
 Definition vint (z : Z) : val := VNum (inject_Z z).
@@ -158,6 +160,12 @@ Definition prim_apply (p : prim) (args : list val) : val :=
   | PSeqLen, [VStr s] => vint (Z.of_nat (String.length s))
   | PSortedByAttr, [VList l; VStr a] =>
       match attr_keys a l with Some ks => VList (map snd (key_sort ks)) | None => VErr "TypeError" end
+  | PSliceFrom, [VList l; VNum q] =>
+      match as_int q with
+      | Some i => if (0 <=? i)%Z then VList (skipn (Z.to_nat i) l)
+                  else VList (skipn (Z.to_nat (Z.of_nat (List.length l) + i)) l)
+      | None => VErr "TypeError"
+      end
   | _, _ => VErr "TypeError"
   end.
 
